@@ -248,6 +248,19 @@ def struct_program(rng):
             t1, s1 = cond(depth + 1)
             return ["not"] + t1, "!(%s)" % s1
         k = rng.random()
+        if wide and rng.random() < 0.15:
+            # stage 14: a 16-bit variable against a 16-bit operand, == / != (two byte passes into cctmp and A), and its truth
+            sv = rng.choice("pq")
+            j = rng.random()
+            if j < 0.2:
+                return ["wcmp:ne:%s:k0" % sv], sv
+            if j < 0.3:
+                return ["not", "wcmp:ne:%s:k0" % sv], "!" + sv
+            o = rng.choice([("eq", "=="), ("ne", "!=")])
+            tw, sw, cw = wopnd()
+            if cw and rng.random() < 0.3:
+                return ["wcmp:%s:%s:%s" % (o[0], sv, tw)], "%s %s %s" % (sw, o[1], sv)      # the constant written on the left
+            return ["wcmp:%s:%s:%s" % (o[0], sv, tw)], "%s %s %s" % (sv, o[1], sw)
         if rng.random() < 0.18:
             # stage 12: a comparison / truth test whose operand is a quiet expression tree (its code writes nothing:
             # a chain that continues on the accumulator, every right operand a memory operand or a constant)
@@ -391,10 +404,16 @@ def struct_program(rng):
             return "{ " + s_ + " }"     # (an unbraced `if (c) break;` is a form of its own: written only on purpose)
         return s_
 
-    toks, lines = [], []
-    for _ in range(rng.randint(1, 8)):
-        t, s_ = stmt(0)
-        toks += t; lines.append(s_)
+    while True:
+        toks, lines = [], []
+        for _ in range(rng.randint(1, 8)):
+            t, s_ = stmt(0)
+            toks += t; lines.append(s_)
+        # not modelled: after `s++` on a 16-bit variable the real generator believes "the flags describe s" (Z is set
+        # exactly when the 16-bit value is 0) and tests `s` / `!s` / `s == 0` by the flags alone; the port forgets the
+        # belief there. Programs that increment a 16-bit variable AND test the same one against 0 are left out.
+        if not any(("winc:" + v) in toks and any(t == "wcmp:ne:%s:k0" % v or t == "wcmp:eq:%s:k0" % v for t in toks) for v in "pq"):
+            break
     q = "ramchip " if absolute else ""
     decl = "unsigned char a, b, c, d;\n" + ("%sunsigned char t[8];\n%sunsigned char u[4];\n" % (q, q) if arrays else "")
     if wide:
@@ -448,6 +467,7 @@ def run(chk):
         ncondt = sum(1 for t in toks if t.startswith("cmpe:") or t.startswith("te:") or t.startswith("cmpr:"))
         chk.count("struct_tree_conditions", ncondt)
         chk.count("struct_tree_register_compares", sum(1 for t in toks if t.startswith("cmpr:")))
+        chk.count("struct_wide_conditions", sum(1 for t in toks if t.startswith("wcmp:")))
         nexpr += ncondt
         if nexpr and ma == "outside":
             # the port says the generator gives up on one of the trees: the real compiler must say so too
